@@ -79,6 +79,26 @@ func enumeratePaths(body []ast.Stmt, classify func(ast.Stmt) string, alwaysTrue 
 				live = append(thenP, elseP...)
 			case *ast.BlockStmt:
 				live = walk(s.List, live)
+			case *ast.SwitchStmt:
+				// each clause is one way through (clauses are tried in order; a missing default lets the item pass on)
+				var outP []pathCounts
+				hasDefault := false
+				for _, c := range s.Body.List {
+					cc := c.(*ast.CaseClause)
+					if cc.List == nil {
+						hasDefault = true
+					}
+					for _, b := range cc.Body {
+						if br, ok := b.(*ast.BranchStmt); ok && br.Tok == token.FALLTHROUGH {
+							undecided = "fallthrough"
+						}
+					}
+					outP = append(outP, walk(cc.Body, append([]pathCounts(nil), live...))...)
+				}
+				if !hasDefault {
+					outP = append(outP, append([]pathCounts(nil), live...)...)
+				}
+				live = outP
 			case *ast.RangeStmt, *ast.ForStmt:
 				// only a loop that is itself judged by this rule takes the item over
 				if judged(st) {
@@ -376,6 +396,11 @@ func RejectionSites(p *load.Prog, r *oblig.Report, rule string, specs []Rejectio
 			for _, ce := range DominatingConds(b) {
 				conds = append(conds, stripUnique(renderCond(ce)))
 			}
+			if li.Inner != nil {
+				for _, ce := range DominatingConds(li.Inner) {
+					conds = append(conds, stripUnique(renderCond(ce)))
+				}
+			}
 			missing := []string{}
 			// a requirement "a|b" is met by either spelling (e.g. membership in a collected list or in the live map)
 			for _, req := range spec.Requires {
@@ -668,6 +693,10 @@ func FreshMembership(p *load.Prog, r *oblig.Report, rule string) {
 						}
 					}
 					walk(s.Body)
+				case *ast.SwitchStmt:
+					for _, c := range s.Body.List {
+						walk(&ast.BlockStmt{List: c.(*ast.CaseClause).Body})
+					}
 				default:
 					ast.Inspect(st, func(m ast.Node) bool {
 						if b, ok := m.(*ast.BlockStmt); ok {
@@ -782,6 +811,34 @@ func ModuleLookupShape(p *load.Prog, r *oblig.Report, rule string) {
 	got := strings.Join(shapes, " | ")
 	want := `"",err | ‹v›#0.Module,nil | typeDef.Metadata.Module,nil`
 	okShape := len(shapes) == 3 && strings.Contains(got, `"",err`) && strings.Contains(got, "typeDef.Metadata.Module,nil") && strings.Contains(got, ".Module,nil")
+	// the same precedence written as cmp.Or(<relation module>, <type module>): first non-empty
+	if !okShape && len(shapes) == 2 && strings.Contains(got, `"",err`) {
+		for _, b := range fn.Blocks {
+			ret, ok := b.Instrs[len(b.Instrs)-1].(*ssa.Return)
+			if !ok {
+				continue
+			}
+			call, ok := ret.Results[0].(*ssa.Call)
+			if !ok {
+				continue
+			}
+			cal := call.Common().StaticCallee()
+			if cal != nil && cal.Origin() != nil {
+				cal = cal.Origin()
+			}
+			if cal == nil || cal.Pkg == nil || cal.Pkg.Pkg.Path() != "cmp" || cal.Name() != "Or" {
+				continue
+			}
+			ops := variadicOperands(call.Common().Args[0])
+			if len(ops) == 2 {
+				first, second := stripUnique(AccessPath(ops[0])), stripUnique(AccessPath(ops[1]))
+				if strings.Contains(first, ".Relations[") && strings.HasSuffix(first, ".Module") && strings.HasSuffix(second, ".Metadata.Module") && !strings.Contains(second, ".Relations[") {
+					okShape = true
+					got += " (cmp.Or: relation module first, then the type's module)"
+				}
+			}
+		}
+	}
 	if okShape {
 		r.OK(rule, construct, p.Pos(fn.Pos()), "return-shapes", got)
 	} else {
